@@ -353,6 +353,7 @@ class Exec:
         self.npaths = 0
         self.max_paths = max_paths
         self.called = set()
+        self.pending = []          # definitional constraints of fresh variables (leading_zeros), added to every query
         self.abstract_wide_div = False   # model WideDivRem::div_rem_from by an arbitrary 256-bit quotient
         self.watch_suffix = None   # record calls to functions whose name ends with this
         self.watched = []          # (path conditions at the call, arguments, returned value)
@@ -519,6 +520,18 @@ class Exec:
             return c.wrap(a, m.group(2))
         if rv.startswith("(") and rv.endswith(")"):
             return tuple(self.operand(f, env, x) for x in split_top(rv[1:-1]))
+        m = re.match(r"([\w:]+) \{ (.*) \}$", rv)
+        if m:
+            d = {"__struct__": m.group(1)}
+            for part in split_top(m.group(2)):
+                k, v = part.split(":", 1)
+                d[k.strip()] = self.operand(f, env, v)
+            return d
+        m = re.match(r"((?:\w+::)+\w+)\((.*)\)$", rv)
+        if m and not rv.startswith("const "):
+            return ("enum", m.group(1), tuple(self.operand(f, env, x) for x in split_top(m.group(2))))
+        if re.match(r"(?:\w+::)+\w+$", rv):
+            return ("enum", rv, ())
         return self.operand(f, env, rv)
 
     def core_call(self, ty, meth, args):
@@ -534,6 +547,20 @@ class Exec:
             return (c.wrap(ex, ty), c.out_of_range(ex, ty))
         if meth == "wrapping_neg":
             return c.wrap(c.neg(a), ty)
+        if meth == "leading_zeros":
+            if a.is_c():
+                return V(c=w - (a.c & ((1 << w) - 1)).bit_length())
+            xu = c.wrap(a, "u%d" % w) if s else a   # bit pattern as an unsigned number
+            z = c.fresh("LZ", 0, w)
+            alts = ["(and (= %s 0) (= %s %d))" % (xu.smt, z.smt, w)]
+            balts = ["(and (= %s %s) (= %s %s))" % (xu.bv, bvlit(0), z.bv, bvlit(w))] if xu.bv else None
+            for k in range(w):
+                alts.append("(and (= %s %d) (>= %s %s) (< %s %s))" % (z.smt, k, xu.smt, lit(1 << (w - 1 - k)), xu.smt, lit(1 << (w - k))))
+                if balts is not None:
+                    balts.append("(and (= %s %s) (bvsge %s %s) (bvslt %s %s))" % (z.bv, bvlit(k), xu.bv, bvlit(1 << (w - 1 - k)), xu.bv, bvlit(1 << (w - k))))
+            # definitional constraint of the fresh variable: kept with the path (it mentions the operand)
+            self.pending.append(B(smt="(or %s)" % " ".join(alts), bv=("(or %s)" % " ".join(balts)) if balts is not None else None))
+            return z
         if meth in ("wrapping_div", "overflowing_div"):
             q = self.quotient(a, b, ty)
             if meth == "wrapping_div":
